@@ -133,6 +133,82 @@ example : compile ⟨[(0, [1]), (1, [0])], fun _ => .const⟩ = .ok (.rejected (
 example : compile ⟨[(0, [1]), (1, [2]), (2, [0])], fun n => if n = 1 then .func else .const⟩
     = .ok (.rejected (.recursive 2) []) := by decide
 
+/-! ## T3 — the context check errs iff a constant reaches a context variable -/
+
+/-- `context_check` never fails (the fuel — node count — is never exhausted, no
+panic), and it returns an error iff some script constant reaches a context
+variable through references; the constant it names is such a constant.
+
+The subtle point is the "assume `false` while on the stack, do not cache" rule:
+a callee that met an on-stack name may be cached `false` although it does reach
+a context variable through that name — but then that name's own call returns
+`true`, every enclosing call returns `true`, the entry constant errs and the
+cache is never consulted again.  Formally (`CInv`): as long as every call so far
+returned `false`, no `true` is cached and every cached `false` is justified up
+to names still on the stack; between top-level calls the stack is empty. -/
+theorem context_rejected_iff (g : Graph) :
+    ∃ r, contextCheck g = .ok r ∧
+      (r.isSome = true ↔ ∃ c, c ∈ g.keys ∧ g.kind c = .const ∧ UsesCtx g c) ∧
+      (∀ c, r = some c → c ∈ g.keys ∧ g.kind c = .const ∧ UsesCtx g c) := by
+  obtain ⟨r, hr⟩ := contextCheck_total g
+  obtain ⟨h1, h2⟩ := contextLoop_spec g g.nodeCount g.keys ⟨[], []⟩ r (CInv.init g) hr
+  refine ⟨r, hr, ⟨fun hs => ?_, fun ⟨c, hk, hc, hu⟩ => ?_⟩, h2⟩
+  · cases r with
+    | none => cases hs
+    | some c => exact ⟨c, h2 c rfl⟩
+  · cases r with
+    | none => exact absurd hu (h1 rfl c hk hc)
+    | some _ => rfl
+
+/-- At the level of `compile`: once the cycle tests have passed, a constant that
+transitively reads a context variable makes `compile` reject with an empty log;
+and `compile` only reports `usesContext c` for a constant `c` that does. -/
+theorem context_rejected (g : Graph) (comps : List (List Nat)) (ht : tarjan g = .ok comps)
+    (hs : selfEdge g g.edges = none) (hm : mixedComponent g comps = none) :
+    ((∃ c, c ∈ g.keys ∧ g.kind c = .const ∧ UsesCtx g c) ↔
+      ∃ c, compile g = .ok (.rejected (.usesContext c) [])) ∧
+    (∀ c, compile g = .ok (.rejected (.usesContext c) []) →
+      c ∈ g.keys ∧ g.kind c = .const ∧ UsesCtx g c) := by
+  obtain ⟨r, hr, hiff, hwho⟩ := context_rejected_iff g
+  have hcomp : compile g = match r with
+      | some c => .ok (.rejected (.usesContext c) [])
+      | none => (codegen g comps.flatten >>= fun st => .ok (.compiled comps.flatten st)) := by
+    cases r with
+    | some c => simp [compile, findCompilationOrder, hs, ht, hm, hr, bind, Except.bind]
+    | none =>
+      simp only [compile, findCompilationOrder, hs, ht, hm, hr, bind, Except.bind]
+  constructor
+  · constructor
+    · intro h
+      have := hiff.2 h
+      cases r with
+      | none => cases this
+      | some c => exact ⟨c, hcomp⟩
+    · rintro ⟨c, hc⟩
+      cases r with
+      | some c' => exact ⟨c', hwho c' rfl⟩
+      | none =>
+        rw [hcomp] at hc
+        simp only [bind, Except.bind] at hc
+        cases hcg : codegen g comps.flatten <;> rw [hcg] at hc <;> cases hc
+  · intro c hc
+    cases r with
+    | some c' =>
+      rw [hcomp] at hc
+      have : c' = c := by simpa using hc
+      subst this; exact hwho c' rfl
+    | none =>
+      rw [hcomp] at hc
+      simp only [bind, Except.bind] at hc
+      cases hcg : codegen g comps.flatten <;> rw [hcg] at hc <;> cases hc
+
+/-- the subtle case: constant 0 → f1; f1 → f2, f1 → ctx 3; f2 → f1.  `f2` is
+cached `false` (wrongly) while `f1` is on the stack, yet the check errs. -/
+example : contextCheck ⟨[(0, [1]), (1, [2, 3]), (2, [1])],
+    fun n => if n = 0 then .const else if n = 3 then .ctx else .func⟩ = .ok (some 0) := by decide
+example : contextCheck ⟨[(0, [1]), (1, [2]), (2, [1]), (4, [3])],
+    fun n => if n = 0 then .const else if n = 3 then .ctx else .func⟩ = .ok none := by decide
+
 /-! ## T4 — evaluated exactly once, after everything reached, before any call -/
 
 /-- With an order the verified checker accepts and the two cycle tests passed,
